@@ -3,7 +3,7 @@ CONSTANTS
   NH = 2
   MaxLen = 2
   Bytes <- B1
-  WriteLens <- WL01
+  WriteLens <- WL012
   ReadLens <- RL
   Offs <- OffQ
   Whences <- WhQ
